@@ -84,6 +84,19 @@ func (n c10Node) tick() string {
 		return "|delete().tag('g')"
 	case "flatten":
 		return "|flatten().on('p')"
+	case "combine":
+		l0 := "lambda: \"p\" == 'p0'"
+		if n.X%2 == 1 {
+			l0 = "lambda: TRUE"
+		}
+		s := "|combine(" + l0 + ", lambda: TRUE).as('x', 'y')"
+		if n.X == 4 {
+			s = "|combine(lambda: TRUE, lambda: \"p\" == 'p0').as('x', 'y')"
+		}
+		if n.Flag {
+			s += ".tolerance(2s)"
+		}
+		return s
 	case "stateCount":
 		return fmt.Sprintf("|stateCount(lambda: \"a\" > %d)", n.X)
 	case "stateDuration":
@@ -125,6 +138,8 @@ func c10Gen(c *Ctx) *c10Scenario {
 			}
 			if i == n-1 && !dropped && g.Chance(1, 8) {
 				k = "flatten" // creates dynamically named fields: only at the end of a chain
+			} else if i == n-1 && sc.BatchS == 0 && g.Chance(1, 8) {
+				k = "combine" // (on stream edges; prefixes every field and tag: only at the end of a chain)
 			}
 			nd := c10Node{Kind: k, X: g.Intn(6), Flag: g.Bool()}
 			if k == "evalOnly" || k == "evalKeepList" || k == "evalTag" {
@@ -328,6 +343,70 @@ func (n c10Node) applyTo(in []c10P, endOfBatch bool) []c10P {
 		}
 		if endOfBatch && cur != nil {
 			out = append(out, *cur)
+		}
+	case "combine":
+		// the points of one group with the same (tolerance-rounded) time are combined in pairs, each pair once: x is
+		// the first point of the pair that satisfies the first expression, y the other; emitted once a point with a
+		// later time has arrived
+		round := func(t int64) int64 {
+			if !n.Flag {
+				return t
+			}
+			return (t + 1) / 2 * 2 // nearest multiple of 2s, halves up
+		}
+		emit := func(run []c10P) {
+			for i := 0; i < len(run); i++ {
+				for j := i + 1; j < len(run); j++ {
+					x, y := run[i], run[j]
+					if n.X == 4 {
+						switch {
+						case y.tags["p"] == "p0":
+						case x.tags["p"] == "p0":
+							x, y = y, x
+						default:
+							continue
+						}
+					} else if n.X%2 == 0 {
+						switch {
+						case x.tags["p"] == "p0":
+						case y.tags["p"] == "p0":
+							x, y = y, x
+						default:
+							continue
+						}
+					}
+					q := c10P{t: round(x.t), dims: x.dims, tags: map[string]string{}, fields: map[string]interface{}{}}
+					isDim := map[string]bool{}
+					for _, d := range strings.Split(x.dims, "+") {
+						isDim[d] = true
+					}
+					for pi, pt := range []c10P{x, y} {
+						pre := []string{"x.", "y."}[pi]
+						for k, v := range pt.fields {
+							q.fields[pre+k] = v
+						}
+						for k, v := range pt.tags {
+							if isDim[k] {
+								q.tags[k] = v
+							} else {
+								q.tags[pre+k] = v
+							}
+						}
+					}
+					out = append(out, q)
+				}
+			}
+		}
+		var run []c10P
+		for _, p := range in {
+			if len(run) > 0 && round(p.t) != round(run[0].t) {
+				emit(run)
+				run = nil
+			}
+			run = append(run, p)
+		}
+		if endOfBatch {
+			emit(run)
 		}
 	case "changeDetectOpt":
 		// consecutive duplicates of the field are discarded; a point without the field is neither emitted nor a change
@@ -693,10 +772,10 @@ func init() {
 	Register(&Prop{
 		ID:  "C10",
 		Run: runC10,
-		Rule: "case = a stem from().groupBy('g','h') forked into 2-3 sibling branches (each its own goroutines), every branch a chain of 1-3 nodes from where, eval (as + keep() / keep(list) / no keep / tags()), default, delete (fields, tags, and the first group-by dimension), shift, sample, derivative (unit, nonNegative, as), changeDetect (also on a field that some points lack), stateCount, stateDuration (units 500ms/1s/2s/1m), flatten().on(tag) as a last node, where/eval with the stateful lambda function count(), with generated parameters; in a third of the cases the chains run on batch edges (below window().period(Ns).every(Ns), N 2-4: each batch must be the transformation of the written points of its group and period, with batch time and tags); outputs are compared with their group-by dimensions, over 1-3 groups of 1-8/16 points (int, float and string fields, an optional tag, repeated timestamps), one concurrent writer per group; " +
+		Rule: "case = a stem from().groupBy('g','h') forked into 2-3 sibling branches (each its own goroutines), every branch a chain of 1-3 nodes from where, eval (as + keep() / keep(list) / no keep / tags()), default, delete (fields, tags, and the first group-by dimension), shift, sample, derivative (unit, nonNegative, as), changeDetect (also on a field that some points lack), stateCount, stateDuration (units 500ms/1s/2s/1m), flatten().on(tag) or combine (specific+TRUE, TRUE+TRUE, TRUE+specific expressions, optional tolerance) as a last node, where/eval with the stateful lambda function count(), with generated parameters; in a third of the cases the chains run on batch edges (below window().period(Ns).every(Ns), N 2-4: each batch must be the transformation of the written points of its group and period, with batch time and tags); outputs are compared with their group-by dimensions, over 1-3 groups of 1-8/16 points (int, float and string fields, an optional tag, repeated timestamps), one concurrent writer per group; " +
 			"non-trivial = the reference produces output on some branch; distinct = distinct (scenario, interleaving signature) pairs",
 		Real:        []string{"WhereNode, EvalNode, DefaultNode, DeleteNode, ShiftNode, SampleNode, DerivativeNode, ChangeDetectNode, StateTracking nodes", "edge forwarding (the same message object goes to every child edge), GroupedConsumer, tick/stateful", "FromNode/groupBy, LogNode, TaskMaster, httpd write endpoint"},
 		Stub:        []string{"log sink at the end of every branch: keeps a deep copy taken on arrival and the live message"},
-		Assumptions: []string{"the reference interpreter follows the node documentation in pipeline/*.go", "flatten only as the last node of a chain and compared by time and fields; combine and groupBy re-grouping are not covered; on batch edges sample (documented as 'every third data point or batch') and the deletion of a group-by dimension are left out", "whether a sibling's in-place mutation is visible depends on which branch runs first, which is what the simulator varies"},
+		Assumptions: []string{"the reference interpreter follows the node documentation in pipeline/*.go", "flatten only as the last node of a chain and compared by time and fields; groupBy re-grouping is not covered (combine, like flatten, only as the last node of a chain on stream edges); on batch edges sample (documented as 'every third data point or batch') and the deletion of a group-by dimension are left out", "whether a sibling's in-place mutation is visible depends on which branch runs first, which is what the simulator varies"},
 	})
 }
